@@ -5,16 +5,22 @@ Case kinds
            recording generator; model = XConfig.sample* replayed with the recorded draws;
            Spec = XConfig.spec* (Lean, `c07.spec`) on the implementation's xconfig
   history  ONE configuration object: constructed, sampled again and again (with / without return value), its
-           decision re-assigned in between; the decisions are rows of one 2-D solution array (C / Fortran /
-           strided; int8 .. int64 / uint / bool), rng=None option; every table is checked against the decision
-           that was current when it was sampled
+           decision re-assigned in between OR REVISED IN PLACE (through the configuration's own view `edit`, or
+           through the solution array it is a view of `editsol`); the decisions are rows of one 2-D solution array
+           (C / Fortran / strided; int8 .. int64 / uint / bool), rng=None option, RandomState or Generator; every
+           table is checked against the decision the configuration itself reported just before it was sampled
+           (Lean: C07.history_every_table_follows_its_decision)
   select   the public select() of a protocol family x encoding.  `algo = sorting`: the exact optimiser
            (SortingSubsetOptimizationAlgorithm), run on the population and on a permuted/relabelled copy
            (optionally through the SAME protocol object): truncation over ALL candidates enumerated
            independently (Lean xmapix), decision space covers every candidate, equivariance.
            `algo = stub`: an optimiser that returns a scripted solution set (single- or multi-objective
            branch, optionally with scripted constraint violations; argmax clause); a second table is sampled
-           from the returned configuration and the solution object must stay as returned
+           from the returned configuration and the solution object must stay as returned.
+           Both: optionally a second select() through the SAME protocol object on a permuted / renamed population or
+           on a SUB-population (one candidate fewer; the stub then has its own script), with design attributes
+           (ncross, nmating, nprogeny) RE-ASSIGNED on the live object in between (`b_over`); `gen = generator`
+           hands a numpy.random.Generator instead of a RandomState to the code
   problem  table-driven: problem() of EVERY concrete protocol class (57): the decision space against
            SelProt.subsetSpace / vectorSpace, Spec `specSpace` + `specCover`
   xmapix   core/util/array.py xmapix/triuix/triudix against the model
@@ -81,6 +87,66 @@ class RecRNG(numpy.random.RandomState):
             v = super().uniform(low, high, size)
         self.log.append({"m": "uniform", "low": float(low), "high": float(high), "out": float(v)})
         return v
+
+
+class RecGen(numpy.random.Generator):
+    """the same recorder over a numpy.random.Generator (the other generator type every `rng` argument accepts):
+    the logged draws have the format of RecRNG's, so the model is replayed with them unchanged; the bulk methods a
+    Generator offers beyond RandomState (permuted, permutation) are logged under their own name - the modelled
+    code does not call them, so the recorded pattern then differs from the model's"""
+    def __init__(self, seed, script=None):
+        super().__init__(numpy.random.PCG64(int(seed) % (2 ** 32)))
+        self.log = []
+        self.script = dict(script or {})
+
+    def shuffle(self, x, axis=0):
+        if axis != 0:
+            self.log.append({"m": "shuffle_axis", "axis": int(axis)})
+            return super().shuffle(x, axis)
+        n = len(x)
+        perm = numpy.arange(n)
+        super().shuffle(perm)
+        before = numpy.array(x, copy=True)
+        if n:
+            x[...] = before[perm]
+        self.log.append({"m": "shuffle", "n": int(n), "ndim": int(before.ndim),
+                         "perm": [int(v) for v in perm],
+                         "before": [int(v) for v in before] if before.ndim == 1 and before.dtype.kind in "iu" else None})
+
+    def choice(self, a, size=None, replace=True, p=None, axis=0, shuffle=True):
+        out = super().choice(a, size, replace, p, axis, shuffle)
+        self.log.append({"m": "choice", "replace": bool(replace),
+                         "out": [int(v) for v in numpy.asarray(out).ravel()]})
+        return out
+
+    def uniform(self, low=0.0, high=1.0, size=None):
+        mode = self.script.get("uniform")
+        if mode == "zero":
+            v = float(low)
+        elif mode == "prev":
+            v = float(numpy.nextafter(high, low))
+        elif mode is not None:
+            v = float(low) + float(Fraction(mode)) * (float(high) - float(low))
+        else:
+            v = super().uniform(low, high, size)
+        self.log.append({"m": "uniform", "low": float(low), "high": float(high), "out": float(v)})
+        return v
+
+    def permuted(self, x, *a, **kw):
+        self.log.append({"m": "permuted"})
+        return super().permuted(x, *a, **kw)
+
+    def permutation(self, x, *a, **kw):
+        self.log.append({"m": "permutation"})
+        return super().permutation(x, *a, **kw)
+
+
+def _mkrng(case, seed, script=None):
+    """the generator handed to the code under test: RandomState by default, `gen = "generator"` asks for the
+    numpy.random.Generator form"""
+    if case.get("gen") == "generator":
+        return RecGen(seed, script)
+    return RecRNG(seed, script)
 
 
 _M = {}
@@ -258,7 +324,7 @@ class C07(Prop):
     PID = "C07"
     MODULE = "PybropsModel.Props.C07"
     N_QUICK = 1500
-    N_THOROUGH = 40000
+    N_THOROUGH = 32000
     CORRESPONDENCE = "functional"
     RULE = ("cfg (50%): the 8 configuration classes constructed directly, 2-7 candidates, 1-4 crosses x 1-4 parents "
             "(22% with 3-4 parents per cross and so few members that [a,b,a] patterns are unavoidable; 3% with 130-300 "
@@ -273,8 +339,14 @@ class C07(Prop):
             "same protocol object), or a stub optimiser returning scripted single-/multi-objective solution sets (default "
             "and custom ndset_trans, both signs of ndset_wt, negative / non-unit obj_wt, tied / duplicated / constant "
             "objectives, 40% with constraints and a front mixing violating and clean points), scalar and per-cross "
-            "nmating/nprogeny; history (9%): one configuration object sampled 3-8 times with re-assigned decisions, "
-            "dtype/layout forms; problem (4% + one sweep over all 57 protocol classes per run); xmapix (3%, up to 4 parents). "
+            "nmating/nprogeny; 30% of cfg/select/history with a numpy.random.Generator instead of a RandomState; mate-selection "
+            "decisions that contain self crosses (unique_parents False); integer counts of 130-300 on one or two candidates; "
+            "fronts / breeding values that differ by 2^-12..2^-27 or by 1/2 on an offset of 10^9 (exactly representable); "
+            "re-used protocol objects with re-assigned ncross/nmating/nprogeny and a second population that is a permuted "
+            "copy or a sub-population; history (9%): one configuration object sampled 3-10 times with re-assigned decisions "
+            "and decisions revised in place (through the object's view or through the solution array), "
+            "dtype/layout forms; problem (4% + one sweep over all 57 protocol classes per run, both values of "
+            "unique_parents for the mate-selection families); xmapix (3%, up to 4 parents). "
             "Non-trivial = cfg with >= 2 crosses or >= 2 parents and >= 2 distinct entries; select/sorting with a candidate "
             "left out; select/stub multi-objective with >= 2 front points or single-objective; history with >= 2 samples and "
             ">= 2 distinct entries; problem with >= 3 taxa; xmapix with >= 2 rows")
@@ -287,8 +359,9 @@ class C07(Prop):
                "the problem does not offer is obtained from the same evalfn at its cross-map position",
                "numpy RandomState.choice(replace=False)/shuffle deliver sub-multisets / permutations (each recorded draw is "
                "validated by the driver); RecRNG.shuffle applies x[permutation(n)] instead of numpy's in-place algorithm; "
-               "numpy's argsort order of tied weights is taken from numpy (oracle sigma); numpy's argsort in the sorting "
-               "optimiser is not stable, so with tied criterion values the implementation's choice is compared by value",
+               "numpy's argsort order of tied weights / tied objective values is taken from numpy (oracle sigma, validated by "
+               "the driver: a permutation along which the values do not decrease; theorem truncation_exact_any_argsort covers "
+               "every such order)",
                "optimisers other than SortingSubsetOptimizationAlgorithm are replaced by a stub returning a scripted "
                "solution set (C06 covers them)",
                "the two classes of UnconstrainedSelectionProtocol (old interface without problem()) are not exercised"]
@@ -305,7 +378,13 @@ class C07(Prop):
                    "'the non-dominated solution that maximises the declared preference transformation' ranges over the whole "
                    "solution set returned by the optimiser, whatever its constraint-violation columns say",
                    "a configuration that leaves its decision array modified in place is a broken correspondence, not a "
-                   "violation, as long as every table it produces is right for the decision that was assigned"]
+                   "violation, as long as every table it produces is right for the decision that was assigned",
+                   "in a history every table is judged against the decision the configuration object itself reports "
+                   "(cfg.xconfig_decn) immediately before the sample; that this equals the row of the solution array it "
+                   "was given (no defensive copy) is a matter of correspondence only",
+                   "known finding D20 absorbs a failing case only if EVERY failing clause of that case is a share deviation "
+                   "of a table the as-is integer sampler can produce (integer encoding, counts that do not tile the slots, "
+                   "some count >= 2, use counts within [q d_i, (q+1) d_i]: theorem integer_use_counts_iff)"]
 
     # ------------------------------------------------------------------ corpus
     def corpus(self):
@@ -358,6 +437,102 @@ class C07(Prop):
         c.append({"kind": "xmapix", "ntaxa": 3, "nparent": 3, "unique": False})
         c.append({"kind": "xmapix", "ntaxa": 2, "nparent": 3, "unique": True})
         c += self._corpus_round3()
+        c += self._corpus_round4()
+        return c
+
+    def _corpus_round4(self):
+        """classes of histories / options added in round 4 (one representative each; the generators vary them)"""
+        import random as _r
+        rng = _r.Random(20260930)
+        c = []
+
+        def pop(n, nv=6):
+            return {"geno": [[[rng.randint(0, 1) for _ in range(nv)] for _ in range(n)] for _ in range(2)],
+                    "names": ["n%04d" % v for v in rng.sample(range(10000), n)],
+                    "u_a": [[rng.choice([1, 2, 3, 5, 8])] for _ in range(nv)]}
+        # one protocol object, two populations of DIFFERENT size, design attributes re-assigned in between
+        # (exact optimiser; mate selection with and without self crosses; individual selection)
+        for fam, enc, n, d, uq, nc2 in (("ohv", "mate_subset", 5, 2, False, 3), ("ohv", "mate_subset", 5, 3, True, 1),
+                                        ("ebv", "subset", 6, 2, None, 1), ("uc", "mate_subset", 4, 2, True, 2)):
+            k = dict({"kind": "select", "family": fam, "enc": enc, "algo": "sorting", "ntaxa": n, "ncross": 2, "nparent": d,
+                      "seed": 41 + n + d, "nmating": 1, "nprogeny": [3, 4], "bv": rng.sample(range(-20, 40), n), "unscale": True,
+                      "obj_wt": 1, "nobj": 1, "reuse": True, "perm": rng.sample(range(n), n - 1),
+                      "names2": ["m%03d" % v for v in rng.sample(range(1000), n - 1)],
+                      "b_over": {"ncross": nc2, "nmating": [2] * nc2, "nprogeny": 5, "ntaxa": n - 1}}, **pop(n))
+            if uq is not None:
+                k["unique"] = uq
+            c.append(k)
+        # the same with a scripted optimiser in a vector encoding (its own script per population), Generator as rng
+        c.append(dict({"kind": "select", "family": "ohv", "enc": "mate_integer", "algo": "stub", "ntaxa": 4, "ncross": 2,
+                       "nparent": 2, "seed": 51, "nmating": 1, "nprogeny": 1, "bv": [3, 9, 1, 7], "unscale": False, "obj_wt": 1,
+                       "unique": False, "nobj": 2, "obj_wt_vec": [1, 1], "gen": "generator",
+                       "soln_decn": [[1, 0, 0, 0, 0, 0, 0, 0, 0, 1], [0, 0, 0, 0, 1, 0, 0, 1, 0, 0]],
+                       "soln_obj": [[1, "1048577/1048576"], [1, 1]], "ndset_wt": 1, "ndset_trans": "sum",
+                       "reuse": True, "perm": [2, 0, 3], "names2": ["q1", "q2", "q3"],
+                       "b_over": {"ncross": 3, "nmating": 2, "nprogeny": [1, 2, 3], "ntaxa": 3,
+                                  "soln_decn": [[0, 1, 0, 0, 0, 2], [1, 1, 1, 0, 0, 0]]}}, **pop(4)))
+        # the eight copies of select() (four encodings x individual / mate): a front whose points differ by 2^-20 in
+        # the preferred direction, the preferred point NOT first; violating points listed before it
+        for enc, fam in (("subset", "ebv"), ("integer", "ebv"), ("binary", "gebv"), ("real", "ocs"),
+                         ("mate_subset", "ohv"), ("mate_integer", "ohv"), ("mate_binary", "ohv"), ("mate_real", "ohv")):
+            b = _base_enc(enc)
+            nopt = 6 if enc.startswith("mate_") else 4          # C(4,2) candidate crosses / 4 individuals
+            if b == "subset":
+                sol = [[0, 1], [2, 3], [1, 2]] if not enc.startswith("mate_") else [[0, 5], [2, 3], [1, 4]]
+                nc, npar = (1, 2) if not enc.startswith("mate_") else (2, 2)
+            else:
+                sol = [[1 if j in (i, (i + 2) % nopt) else 0 for j in range(nopt)] for i in range(3)]
+                if b == "real":
+                    sol = [[canon.enc(Fraction(v, 4)) for v in d] for d in sol]
+                nc, npar = 2, 2
+            k = dict({"kind": "select", "family": fam, "enc": enc, "algo": "stub", "ntaxa": 4, "ncross": nc, "nparent": npar,
+                      "seed": 81, "nmating": 1, "nprogeny": 1, "bv": [7, 3, 9, 1], "unscale": False, "obj_wt": 1, "nobj": 2,
+                      "obj_wt_vec": [1, 1], "soln_decn": sol, "real_den": 4,
+                      "soln_obj": [[2, 1], [2, "1048577/1048576"], [2, "1048575/1048576"]],
+                      "ndset_wt": 1, "ndset_trans": "sum", "ncv": [1, 0], "soln_cv": [[1], [0], [0]]}, **pop(4))
+            if enc.startswith("mate_"):
+                k["unique"] = True
+            c.append(k)
+        # decisions revised IN PLACE between samples (through the configuration's view / through the solution array)
+        c.append({"kind": "history", "enc": "integer", "ntaxa": 8, "ncross": 3, "nparent": 2, "seed": 61, "dtype": "int64",
+                  "decns": [[0, 0, 2, 2, 2, 0, 0, 0], [0, 0, 0, 0, 0, 1, 2, 3], [6, 0, 0, 0, 0, 0, 0, 0]],
+                  "steps": ["sample", "set1", "sample", "edit0", "sample", "editsol2", "sample_nr", "sample"]})
+        c.append({"kind": "history", "enc": "subset", "ntaxa": 6, "ncross": 2, "nparent": 2, "seed": 62, "dtype": "int32",
+                  "decns": [[5, 0], [1, 2]], "layout": "F", "steps": ["sample", "editsol1", "sample", "edit0", "sample"]})
+        c.append({"kind": "history", "enc": "mate_real", "ntaxa": 3, "ncross": 3, "nparent": 2, "unique": False, "seed": 63,
+                  "decns": [["1/2", 0, "1/2", 0, 0, 0], [0, 0, 0, "1/4", 0, "3/4"]], "gen": "generator",
+                  "steps": ["sample", "edit1", "sample", "sample_nr", "editsol0", "sample"]})
+        # numpy.random.Generator as the random source; members that must repeat (self-pairings possible)
+        c.append({"kind": "cfg", "enc": "subset", "ntaxa": 7, "ncross": 4, "nparent": 2, "decn": [1, 3, 4, 6], "seed": 3,
+                  "gen": "generator"})
+        c.append({"kind": "cfg", "enc": "subset", "ntaxa": 5, "ncross": 4, "nparent": 2, "decn": [4, 2, 0], "seed": 7,
+                  "gen": "generator"})
+        c.append({"kind": "cfg", "enc": "real", "ntaxa": 4, "ncross": 4, "nparent": 2, "decn": ["1/2", 0, "1/4", "1/4"], "seed": 9,
+                  "gen": "generator"})
+        # mate selection whose chosen solution contains SELF crosses (unique_parents = False)
+        c.append({"kind": "cfg", "enc": "mate_subset", "ntaxa": 6, "ncross": 3, "nparent": 2, "unique": False,
+                  "decn": [9, 13, 20], "seed": 9})                                  # (1,4) (2,4) (5,5)
+        c.append({"kind": "cfg", "enc": "mate_subset", "ntaxa": 4, "ncross": 3, "nparent": 3, "unique": False,
+                  "decn": [0, 9, 19], "seed": 2, "gen": "generator"})               # (0,0,0) (0,3,3) (3,3,3)
+        c.append({"kind": "cfg", "enc": "mate_integer", "ntaxa": 4, "ncross": 4, "nparent": 2, "unique": False,
+                  "decn": [2, 0, 0, 1, 0, 0, 0, 0, 0, 1], "seed": 4})               # (0,0) x2, (0,3), (3,3)
+        c.append({"kind": "cfg", "enc": "mate_binary", "ntaxa": 3, "ncross": 3, "nparent": 2, "unique": False,
+                  "decn": [1, 0, 0, 1, 0, 1], "seed": 5})
+        c.append({"kind": "cfg", "enc": "mate_real", "ntaxa": 3, "ncross": 4, "nparent": 2, "unique": False,
+                  "decn": ["1/2", 0, 0, "1/2", 0, 1], "seed": 6})
+        # contribution counts past 127 / 255
+        c.append({"kind": "cfg", "enc": "integer", "ntaxa": 4, "ncross": 2, "nparent": 2, "decn": [0, 0, 200, 0], "seed": 1})
+        c.append({"kind": "cfg", "enc": "integer", "ntaxa": 3, "ncross": 1, "nparent": 2, "decn": [0, 256, 3], "seed": 2})
+        c.append({"kind": "cfg", "enc": "integer", "ntaxa": 3, "ncross": 2, "nparent": 2, "decn": [0, 256, 0], "seed": 2})
+        c.append({"kind": "cfg", "enc": "mate_integer", "ntaxa": 3, "ncross": 3, "nparent": 2, "unique": False,
+                  "decn": [0, 0, 512, 0, 0, 0], "seed": 3})
+        # breeding values that differ by 2^-20 only; exact optimiser; permuted copy
+        c.append(dict({"kind": "select", "family": "ebv", "enc": "subset", "algo": "sorting", "ntaxa": 6, "ncross": 1, "nparent": 2,
+                       "seed": 71, "nmating": 1, "nprogeny": 1, "bv": [3 + v * 2.0 ** -20 for v in (4, -2, 7, 0, 5, -6)],
+                       "unscale": True, "obj_wt": 1, "nobj": 1, "perm": [3, 5, 0, 2, 1, 4],
+                       "names2": ["m%d" % i for i in range(6)]}, **pop(6)))
+        c.append({"kind": "cfg", "enc": "mate_integer", "ntaxa": 3, "ncross": 2, "nparent": 2, "unique": True,
+                  "decn": [0, 300, 0], "seed": 3})
         return c
 
     def _corpus_round3(self):
@@ -496,6 +671,10 @@ class C07(Prop):
                 d = [rng.choice([0, 0, 1, 1, 2, 3, 4]) for _ in range(nopt)]
                 if not any(d):
                     d[rng.randrange(nopt)] = rng.randint(1, 3)
+            if style > 0.93:        # contribution counts past 127 / 255 (narrow integer buffers) on one or two candidates
+                d = [0] * nopt
+                for i in rng.sample(range(nopt), rng.choice([1, 1, 2]) if nopt > 1 else 1):
+                    d[i] = rng.choice([130, 200, 256, 300])
             case["decn"] = d
         else:
             d = [rng.choice([0, 0, 1, 1, 2, 3, 4, 6]) for _ in range(nopt)]
@@ -520,6 +699,24 @@ class C07(Prop):
                 d[nopt - 1 - rng.randrange(30)] = 1
             case["decn"] = d if b != "real" else [canon.enc(Fraction(v, 2)) for v in d]
             case.pop("script", None)
+        if mate and not case["unique"] and nparent >= 2 and not wide and rng.random() < 0.6:
+            # the chosen solution contains SELF crosses (i,i) / (i,i,j): rows with a repeated parent are candidate
+            # crosses like any other and must come out of the configuration as they are
+            xm = [list(map(int, r)) for r in _mods()["array"].xmapix(ntaxa, nparent, False)]
+            selfs = [i for i, r in enumerate(xm) if len(set(r)) < len(r)]
+            pick = rng.sample(selfs, min(len(selfs), rng.randint(1, 2)))
+            if b == "subset":
+                d = [v for v in case["decn"] if v not in pick]
+                case["decn"] = (pick + d)[:max(len(case["decn"]), len(pick))]
+                rng.shuffle(case["decn"])
+            else:
+                d = list(case["decn"])
+                for i in pick:
+                    if Fraction(d[i]) == 0:
+                        d[i] = 1 if b != "real" else canon.enc(Fraction(1, 2))
+                case["decn"] = d
+        if rng.random() < 0.3:
+            case["gen"] = "generator"          # numpy.random.Generator instead of RandomState
         return case
 
     def _gen_select(self, rng):
@@ -560,6 +757,12 @@ class C07(Prop):
             bvs = [off + 4 * v for v in rng.sample(range(-8, 9), ntaxa)]
         elif mag < 0.16:        # the best candidates at the HIGH indices / at the LOW indices
             bvs = sorted(bvs, reverse=rng.random() < 0.5)
+        elif mag < 0.26:
+            # candidates that differ by 2^-20 / 2^-27 only (inside any 1e-3 / 1e-5 / 1e-8 rounding or tolerance), all
+            # exactly representable: 'exactly the best' is still well defined
+            step = rng.choice([2.0 ** -20, 2.0 ** -27, 2.0 ** -12])
+            off = rng.choice([0, 3, 25000])
+            bvs = [off + step * v for v in rng.sample(range(-8, 9), ntaxa)]
         case["bv"] = bvs
         case["unscale"] = rng.random() < 0.5
         case["obj_wt"] = rng.choice([1, 1, 1, -1])
@@ -580,6 +783,10 @@ class C07(Prop):
             case["no_taxa"] = True
         if fam in ("ebv", "gebv", "random", "ocs", "meh", "mgr", "gwgebv", "wgs", "fam", "ohv", "uc") and rng.random() < 0.3:
             case["gmat_unphased"] = True
+        if rng.random() < 0.3:
+            case["gen"] = "generator"
+        if rng.random() < 0.15:
+            case["no_misc"] = True          # select(..., miscout=None)
         if algo == "sorting":
             if enc == "subset" and fam != "random" and ncross * nparent > ntaxa:
                 case["ncross"] = ncross = 1
@@ -600,6 +807,23 @@ class C07(Prop):
             case["reuse"] = rng.random() < 0.4      # the permuted population goes through the SAME protocol object
             case["perm"] = rng.sample(range(ntaxa), ntaxa) if rng.random() < 0.8 else list(range(ntaxa))[::-1]
             case["names2"] = ["m%02d" % v for v in rng.sample(range(100), ntaxa)]
+            if case["reuse"] and rng.random() < 0.6:
+                n2 = ntaxa
+                if rng.random() < 0.6 and ntaxa - 1 >= max(2, case["nparent"]):
+                    # the second population is a SUB-population (one candidate fewer, reordered): whatever the protocol
+                    # object remembers about the first population (cross map, sizes) no longer fits
+                    n2 = ntaxa - 1
+                    case["perm"] = rng.sample(range(ntaxa), n2)
+                    case["names2"] = case["names2"][:n2]
+                if enc == "mate_subset":
+                    hi = min(4, len(self._candidates(dict(case, ntaxa=n2))))
+                elif fam == "random":
+                    hi = 4
+                else:
+                    hi = max(1, n2 // case["nparent"])
+                self._gen_b_over(rng, case, hi)
+                if n2 != ntaxa:
+                    case["b_over"]["ntaxa"] = n2
         else:
             # scripted solution set
             nobj = rng.choice([1, 1, 2, 2, 3])
@@ -644,10 +868,35 @@ class C07(Prop):
                 case["nprogeny"] = 1
                 solns = [[rng.randrange(nopt)]] if b == "subset" else solns
             case["soln_decn"] = solns
-            if rng.random() < 0.25:     # a second select() on the same protocol object with another population
+            if rng.random() < 0.3:      # a second select() on the same protocol object with another population
                 case["reuse"] = True
                 case["perm"] = rng.sample(range(ntaxa), ntaxa)
                 case["names2"] = ["m%02d" % v for v in rng.sample(range(100), ntaxa)]
+                if rng.random() < 0.6:
+                    # (subset encodings: the scripted solutions have the length the first design asks for, so only the
+                    #  mating / progeny numbers change there; vector encodings: the number of crosses as well)
+                    self._gen_b_over(rng, case, 4 if b != "subset" else 0)
+                    n2 = ntaxa - 1
+                    nopt2 = (len(list(_mods()["array"].xmapix(n2, nparent, case["unique"]))) if enc.startswith("mate_")
+                             else n2)
+                    if rng.random() < 0.6 and n2 >= max(2, nparent) and (b != "subset" or ksub <= nopt2) and case.get("soln_decn"):
+                        # the second population is a SUB-population: the optimiser's script for it is drawn afresh
+                        case["perm"] = rng.sample(range(ntaxa), n2)
+                        case["names2"] = case["names2"][:n2]
+                        sol2 = []
+                        for _ in case["soln_decn"]:
+                            if b == "subset":
+                                d = rng.sample(range(nopt2), ksub)
+                            elif b == "binary":
+                                d = [1 if rng.random() < 0.5 else 0 for _ in range(nopt2)]
+                                d[rng.randrange(nopt2)] = 1
+                            else:
+                                d = [rng.choice([0, 1, 1, 2]) for _ in range(nopt2)]
+                                d[rng.randrange(nopt2)] = 1
+                                if b == "real":
+                                    d = [canon.enc(Fraction(v, case["real_den"])) for v in d]
+                            sol2.append(d)
+                        case["b_over"].update(ntaxa=n2, soln_decn=sol2)
             style = rng.random()
             objs = [[rng.randint(0, 4) for _ in range(nobj)] for _ in solns]
             if style < 0.2 and nobj > 1:        # a constant objective
@@ -655,6 +904,14 @@ class C07(Prop):
                     o[0] = objs[0][0]
             elif style < 0.4 and len(objs) > 1:  # duplicated point
                 objs[-1] = list(objs[0])
+            elif style < 0.6 and len(objs) > 1:
+                # magnitudes: front points that differ by 2^-20 / 2^-27 (inside any 1e-5 / 1e-8 tolerance), or by 1/2 on
+                # a common offset of 10^9 / 25000 — all exactly representable, so the preferred point is well defined
+                step, off = rng.choice([(Fraction(1, 2 ** 20), 0), (Fraction(1, 2 ** 27), 0), (Fraction(1, 2), 10 ** 9),
+                                        (Fraction(1, 4), 25000)])
+                ranks = list(range(len(objs)))
+                rng.shuffle(ranks)
+                objs = [[canon.enc(off + objs[0][j] + (step * r if j == 0 else 0)) for j in range(nobj)] for r in ranks]
             case["soln_obj"] = objs
             if nobj > 1:     # objectives to be increased / decreased, non-unit weights
                 case["obj_wt_vec"] = [rng.choice([1, -1, -1, 2, "1/2", -3]) for _ in range(nobj)]
@@ -683,6 +940,19 @@ class C07(Prop):
                 case["ndset_kwargs"] = {"obj_wt": [rng.choice([1, 1, 2, 3]) for _ in range(nobj)],
                                         "vec_wt": [rng.choice([1, -1]) for _ in range(nobj)]}
         return case
+
+    @staticmethod
+    def _gen_b_over(rng, case, hi):
+        """design attributes re-assigned on the live protocol object before its second select(): another number of
+        crosses (with matching per-cross arrays) or other mating / progeny numbers"""
+        nc2 = rng.randint(1, max(1, hi))
+        if hi == 0:
+            nc2 = case["ncross"]
+        elif rng.random() < 0.3:
+            nc2 = min(case["ncross"], hi)
+        case["b_over"] = {"ncross": nc2,
+                          "nmating": rng.choice([1, 3, [rng.randint(1, 4) for _ in range(nc2)]]),
+                          "nprogeny": rng.choice([2, 6, [rng.randint(1, 9) for _ in range(nc2)]])}
 
     def _gen_history(self, rng):
         """one configuration object: constructed, sampled again and again, its decision re-assigned in between;
@@ -735,11 +1005,20 @@ class C07(Prop):
         case["layout"] = rng.choice([None, "F", "strided"])
         steps = []
         for _ in range(rng.randint(2, 5)):
-            steps.append(rng.choice(["sample", "sample", "sample_nr", "read", "set%d" % rng.randrange(q)]))
+            steps.append(rng.choice(["sample", "sample", "sample_nr", "read", "set%d" % rng.randrange(q),
+                                     "edit%d" % rng.randrange(q), "editsol%d" % rng.randrange(q)]))
         steps += ["set%d" % rng.randrange(1, q), "sample"]       # always: a re-assigned decision, then a fresh sample
         if rng.random() < 0.5:
             steps += ["set0", rng.choice(["sample", "sample_nr"])]
+        if rng.random() < 0.6:
+            # the decision vector REVISED IN PLACE (through the configuration's own view / through the solution
+            # array it is a view of) after the object has been sampled, then sampled again
+            steps += [rng.choice(["edit%d", "editsol%d"]) % rng.randrange(q), rng.choice(["sample", "sample_nr"])]
+            if rng.random() < 0.4:
+                steps += ["sample"]
         case["steps"] = steps
+        if rng.random() < 0.3:
+            case["gen"] = "generator"
         if not mate and rng.random() < 0.3:
             case["nmating"] = [rng.randint(1, 4) for _ in range(ncross)]
         if rng.random() < 0.15:
@@ -792,7 +1071,10 @@ class C07(Prop):
             out.append({"kind": "xmapix", "ntaxa": n_k[0], "nparent": n_k[1], "unique": n_k[2]})
         # table-driven: the decision space of EVERY protocol class, once per run
         for key in self._problem_table():
-            out.append(self._gen_problem(rng, key))
+            pc = self._gen_problem(rng, key)
+            out.append(pc)
+            if "unique" in pc:          # mate-selection families: the other value of unique_parents as well
+                out.append(dict(self._gen_problem(rng, key), unique=not pc["unique"]))
         while len(out) < n:
             r = rng.random()
             if r < 0.50:
@@ -846,7 +1128,7 @@ class C07(Prop):
         M = _mods()
         enc = case["enc"]
         cls = M["cfgcls"][enc]
-        rng = RecRNG(case["seed"], case.get("script"))
+        rng = _mkrng(case, case["seed"], case.get("script"))
         pg = _pgmat(case["ntaxa"])
         decn = _decn_array(enc, case["decn"])
         snapshot = decn.copy()
@@ -977,9 +1259,7 @@ class C07(Prop):
         M = _mods()
         b = _base_enc(case["enc"])
         base, Soln = M["algobase"][b], M["solncls"][b]
-        decns = numpy.array([[float(Fraction(v)) for v in d] for d in case["soln_decn"]]) if b == "real" else \
-            numpy.array(case["soln_decn"], dtype=int)
-        objs = numpy.array(case["soln_obj"], dtype=float)
+        objs = numpy.array([[float(Fraction(v)) for v in r] for r in case["soln_obj"]], dtype=float)
 
         class Stub(base):
             def __init__(self):
@@ -987,15 +1267,19 @@ class C07(Prop):
 
             def minimize(self, prob, miscout=None, **kwargs):
                 store["prob"] = prob
+                script = store.get("ce", case)["soln_decn"]     # (the second population of a re-used protocol has its own)
+                decns = numpy.array([[float(Fraction(v)) for v in d] for d in script]) if b == "real" else \
+                    numpy.array(script, dtype=int)
                 q = len(decns)
                 cv = numpy.array([[float(Fraction(v)) for v in r] for r in case["soln_cv"]],
                                  dtype=float).reshape(q, prob.nineqcv + prob.neqcv) if case.get("soln_cv") \
                     else numpy.zeros((q, prob.nineqcv + prob.neqcv))
-                return Soln(ndecn=prob.ndecn, decn_space=prob.decn_space, decn_space_lower=prob.decn_space_lower,
+                store["soln"] = Soln(ndecn=prob.ndecn, decn_space=prob.decn_space, decn_space_lower=prob.decn_space_lower,
                             decn_space_upper=prob.decn_space_upper, nobj=prob.nobj, obj_wt=prob.obj_wt,
                             nineqcv=prob.nineqcv, ineqcv_wt=prob.ineqcv_wt, neqcv=prob.neqcv, eqcv_wt=prob.eqcv_wt,
                             nsoln=q, soln_decn=decns.copy(), soln_obj=objs.copy(),
                             soln_ineqcv=cv[:, :prob.nineqcv].copy(), soln_eqcv=cv[:, prob.nineqcv:].copy())
+                return store["soln"]
         return Stub()
 
     @staticmethod
@@ -1012,17 +1296,19 @@ class C07(Prop):
     def _recording_sorting(self, store, case):
         M = _mods()
         Sorting = M["sorting"]
-        cands = self._candidates(case)
+        candidates = self._candidates
 
         class RecSorting(Sorting):
             def minimize(self, prob, miscout=None, **kwargs):
+                ce = store.get("ce", case)
+                cands = candidates(ce)
                 store["prob"] = prob
                 store["single_obj"] = [float(prob.evalfn(numpy.array([e]))[0][0]) for e in prob.decn_space]
                 store["space"] = [int(e) for e in prob.decn_space]
                 # the criterion of EVERY candidate, whether or not the problem offers it to the optimiser
                 xm = getattr(prob, "decn_space_xmap", None)
                 if xm is None:
-                    loc = {(i,): i for i in range(case["ntaxa"])}
+                    loc = {(i,): i for i in range(ce["ntaxa"])}
                 else:
                     loc = {}
                     for i, r in enumerate(numpy.asarray(xm).tolist()):
@@ -1054,17 +1340,33 @@ class C07(Prop):
             d["ndset_trans_kwargs"] = {k: numpy.array(v, dtype=float) for k, v in case["ndset_kwargs"].items()}
         return d
 
-    def _one_select(self, case, perm=None, names=None, keep=None):
+    @staticmethod
+    def _eff(case, key):
+        """the design parameters in force for the second select() of a re-used protocol object"""
+        return dict(case, **case["b_over"]) if (key == "b" and case.get("b_over")) else case
+
+    def _one_select(self, case, perm=None, names=None, keep=None, over=None):
         M = _mods()
+        ce = dict(case, **over) if over else case
         pg, bvmat, gp, ntrait = self._world(case, perm, names)
         stray = RecRNG(case["seed"] + 1)            # stands in for the module-level global generator
         if keep is not None and keep.get("prot") is not None:
             # ONE protocol object used for a second select() on another population
             prot, rng, store = keep["prot"], keep["rng"], keep["store"]
             store.clear()
+            store["ce"] = ce
+            if over:        # design attributes RE-ASSIGNED on the live protocol object between two select() calls
+                def arr(v):
+                    return numpy.array(v) if isinstance(v, list) else v
+                if "ncross" in over:
+                    prot.ncross = int(over["ncross"])
+                if "nmating" in over:
+                    prot.nmating = arr(over["nmating"])
+                if "nprogeny" in over:
+                    prot.nprogeny = arr(over["nprogeny"])
         else:
             store = {}
-            rng = RecRNG(case["seed"])                  # the protocol's own generator
+            rng = _mkrng(case, case["seed"])            # the protocol's own generator (RandomState or Generator)
             if case["algo"] == "sorting":
                 so, mo = self._recording_sorting(store, case), None
             else:
@@ -1074,7 +1376,7 @@ class C07(Prop):
             if keep is not None:
                 keep.update(prot=prot, rng=rng, store=store)
         mark = len(rng.log)
-        misc = {}
+        misc = None if case.get("no_misc") else {}     # miscout is optional: None = nothing is handed out
         # since fix 166b95e8 select() hands the protocol's generator to the configuration; any draw that
         # still reaches the module-level global generator (the pre-repair rng=None path) lands on `stray`
         with _patch(M["mixin"], "global_prng", stray):
@@ -1090,8 +1392,8 @@ class C07(Prop):
              "names": [str(pg.taxa[i]) for i in range(pg.ntaxa)] if pg.taxa is not None else
              (list(case["names2"]) if perm is not None else list(case["names"])),
              "nmating": [int(v) for v in cfg.nmating], "nprogeny": [int(v) for v in cfg.nprogeny],
-             "design_ok": bool(cfg.ncross == case["ncross"] and cfg.nparent == case["nparent"] and _same_pop(cfg.pgmat, pg)),
-             "has_soln": ("sosoln" in misc) or ("mosoln" in misc),
+             "design_ok": bool(cfg.ncross == ce["ncross"] and cfg.nparent == ce["nparent"] and _same_pop(cfg.pgmat, pg)),
+             "has_soln": misc is None or ("sosoln" in misc) or ("mosoln" in misc),
              "own_generator": bool(cfg.rng is rng), "stray_draws": len(stray.log)}
         if case["family"] in ("uc", "embv") and enc == "mate_integer" and "prob" in store:
             r["uc_upper"] = [int(v) for v in store["prob"].decn_space_upper]
@@ -1106,9 +1408,12 @@ class C07(Prop):
             r["full_obj"] = [None if v is None else canon.enc(v) for v in store["full_obj"]]
         # two-object aliasing: the configuration's decision is (a view of) a row of the solution object handed
         # out through miscout; sampling must leave the solution as the optimiser returned it
+        misc = misc or {}
         soln0 = misc.get("sosoln", misc.get("mosoln"))
+        if soln0 is None and case["algo"] == "stub" and store.get("soln") is not None:
+            soln0 = store["soln"]           # (miscout=None: the solution object as the stub built it)
         if soln0 is not None and case["algo"] == "stub":
-            want = numpy.array([[float(Fraction(v)) for v in d] for d in case["soln_decn"]], dtype=float)
+            want = numpy.array([[float(Fraction(v)) for v in d] for d in ce["soln_decn"]], dtype=float)
             r["soln_untouched"] = bool(numpy.array_equal(numpy.asarray(soln0.soln_decn, dtype=float), want))
             before = numpy.array(cfg.xconfig_decn, copy=True)
             again = cfg.sample_xconfig(return_xconfig=True)     # a second configuration from the same object
@@ -1117,6 +1422,8 @@ class C07(Prop):
             r["again_untouched"] = bool(numpy.array_equal(before, cfg.xconfig_decn)
                                         and numpy.array_equal(numpy.asarray(soln0.soln_decn, dtype=float), want))
         soln = misc.get("sosoln", misc.get("mosoln"))
+        if soln is None and case["algo"] == "stub":
+            soln = store.get("soln")
         if soln is not None and case["algo"] == "stub":
             tv = prot.ndset_trans(soln.soln_obj, **prot.ndset_trans_kwargs) if case.get("nobj", 1) > 1 else None
             r["tvals"] = None if tv is None else [canon.enc(float(v)) for v in tv]
@@ -1126,7 +1433,7 @@ class C07(Prop):
         keep = {} if case.get("reuse") else None
         obs = {"a": self._one_select(case, keep=keep)}
         if case["algo"] == "sorting" or case.get("reuse"):
-            obs["b"] = self._one_select(case, case["perm"], case["names2"], keep=keep)
+            obs["b"] = self._one_select(case, case["perm"], case["names2"], keep=keep, over=case.get("b_over"))
         return obs
 
     # -- history: ONE configuration object, sampled repeatedly, its decision re-assigned in between --------
@@ -1151,7 +1458,7 @@ class C07(Prop):
         M = _mods()
         enc = case["enc"]
         cls = M["cfgcls"][enc]
-        rng = RecRNG(case["seed"], case.get("script"))
+        rng = _mkrng(case, case["seed"], case.get("script"))
         pg = _pgmat(case["ntaxa"])
         mat = self._decn_matrix(enc, case["decns"], case.get("dtype"), case.get("layout"))
         snap = mat.copy()
@@ -1173,33 +1480,52 @@ class C07(Prop):
         samples = []
         kept = []               # earlier results and copies of them: a later sample must not rewrite an earlier table
         mark = 0
+        rowvals = [list(d) for d in case["decns"]]      # what every row of the solution array holds NOW
         # rng=None (the default of the optional argument) means the module-level global generator
         with _patch(M["mixin"], "global_prng", rng):
             cfg = cls(**kw)
 
-        def record(tab, returned_ok=True):
+        def own_decn():
+            """the decision the configuration itself reports (what its next table has to follow), as exact values"""
+            d = numpy.array(cfg.xconfig_decn, copy=True)
+            return [canon.enc(float(v)) for v in d] if _base_enc(enc) == "real" else [int(v) for v in d]
+
+        def record(tab, decn_before, returned_ok=True):
             nonlocal mark
-            samples.append({"cur": cur, "xconfig": [[int(v) for v in r] for r in tab], "log": rng.log[mark:],
-                            "returned_ok": bool(returned_ok)})
+            samples.append({"cur": cur, "decn": decn_before, "decn_is_row": decn_before == [
+                                (canon.enc(float(Fraction(v))) if _base_enc(enc) == "real" else int(v)) for v in rowvals[cur]],
+                            "xconfig": [[int(v) for v in r] for r in tab],
+                            "log": rng.log[mark:], "returned_ok": bool(returned_ok)})
             mark = len(rng.log)
             kept.append((tab, numpy.array(tab, copy=True)))
-        record(cfg.xconfig)
+        record(cfg.xconfig, [(canon.enc(float(Fraction(v))) if _base_enc(enc) == "real" else int(v)) for v in rowvals[0]])
         for st in case["steps"]:
             if st == "sample":
+                db = own_decn()
                 out = cfg.sample_xconfig(return_xconfig=True)
-                record(cfg.xconfig, out is not None and numpy.array_equal(out, cfg.xconfig))
+                record(cfg.xconfig, db, out is not None and numpy.array_equal(out, cfg.xconfig))
             elif st == "sample_nr":
+                db = own_decn()
                 out = cfg.sample_xconfig(return_xconfig=False)
-                record(cfg.xconfig, out is None)
+                record(cfg.xconfig, db, out is None)
             elif st == "read":              # read-only properties between samples
                 _ = (cfg.xconfig_decn, cfg.ncross, cfg.nparent, cfg.nmating, cfg.nprogeny, cfg.pgmat)
             elif st.startswith("set"):
                 cur = int(st[3:])
                 cfg.xconfig_decn = mat[cur]
+            elif st.startswith("editsol"):          # the solution array is revised: the configuration's decision is a view of it
+                src = int(st[7:])
+                mat[cur, :] = self._decn_matrix(enc, [case["decns"][src]], case.get("dtype"), None)[0]
+                rowvals[cur] = list(case["decns"][src])
+            elif st.startswith("edit"):             # the decision vector is revised in place through the configuration
+                src = int(st[4:])
+                cfg.xconfig_decn[...] = self._decn_matrix(enc, [case["decns"][src]], case.get("dtype"), None)[0]
+                rowvals[cur] = list(case["decns"][src])
             else:
                 raise ValueError(st)
         obs["samples"] = samples
-        obs["decn_untouched"] = bool(numpy.array_equal(mat, snap) and numpy.array_equal(cfg.xconfig_decn, snap[cur])
+        want = self._decn_matrix(enc, rowvals, case.get("dtype"), None)
+        obs["decn_untouched"] = bool(numpy.array_equal(mat, want) and numpy.array_equal(cfg.xconfig_decn, want[cur])
                                      and (xm is None or numpy.array_equal(xm, xm_snap)))
         obs["earlier_tables_intact"] = all(numpy.array_equal(a, b) for a, b in kept)
         nmv = nm if isinstance(nm, list) else [nm] * case["ncross"]
@@ -1384,7 +1710,7 @@ class C07(Prop):
         if k == "history":
             reqs = []
             for smp in obs["samples"]:
-                rr = self._sample_spec_reqs(case["enc"], case["ncross"], case["nparent"], case["decns"][smp["cur"]],
+                rr = self._sample_spec_reqs(case["enc"], case["ncross"], case["nparent"], smp["decn"],
                                             obs.get("xmap"), smp["log"], smp["xconfig"])
                 smp["_nreq"] = len(rr)
                 reqs += rr
@@ -1407,15 +1733,21 @@ class C07(Prop):
             if key not in obs:
                 continue
             o = obs[key]
-            add(key + ".cfg", self._sample_spec_reqs(enc, case["ncross"], case["nparent"], o["decn"], o.get("xmap"),
+            ce = self._eff(case, key)
+            add(key + ".cfg", self._sample_spec_reqs(enc, ce["ncross"], ce["nparent"], o["decn"], o.get("xmap"),
                                                     [e for e in o["log"]], o["xconfig"]))
             if "again" in o:
-                add(key + ".again", self._sample_spec_reqs(enc, case["ncross"], case["nparent"], o["decn"], o.get("xmap"),
+                add(key + ".again", self._sample_spec_reqs(enc, ce["ncross"], ce["nparent"], o["decn"], o.get("xmap"),
                                                           [e for e in o["again_log"]], o["again"]))
             if case["algo"] == "sorting":
                 add(key + ".sorting", {"op": "c07.sorting", "obj": o["single_obj"], "k": len(o["decn"])})
+                # numpy's own argsort of the recorded objective column (what `obj.argsort(0)` saw: an (n,1) float array),
+                # validated by the driver: the model's decision is then the implementation's, ties included
+                col = numpy.array([float(Fraction(v)) for v in canon.dec(o["single_obj"])], dtype=float).reshape(-1, 1)
+                add(key + ".sorting_with", {"op": "c07.sorting_with", "obj": o["single_obj"], "k": len(o["decn"]),
+                                            "sigma": [int(v) for v in col.argsort(0)[:, 0]]})
                 add(key + ".topk", {"op": "c07.spec_topk", "obj": o["single_obj"], "k": len(o["decn"]), "decn": o["decn"]})
-                cands = self._candidates(case)
+                cands = self._candidates(ce)
                 xmap = o["xmap"] if mate else cands
                 add(key + ".cover", {"op": "c07.spec_cover", "cands": cands, "xmap": xmap, "space": o["space"]})
                 # the decision expressed as positions in the independent candidate list
@@ -1425,8 +1757,10 @@ class C07(Prop):
                 if all(v is not None for v in o["full_obj"]) and all(v is not None for v in pos):
                     add(key + ".topk_full", {"op": "c07.spec_topk", "obj": o["full_obj"], "k": len(pos), "decn": pos})
         if mate:
-            add("xmapix", {"op": "c07.xmapix", "ntaxa": case["ntaxa"], "nparent": case["nparent"],
-                           "unique": bool(case.get("unique", True))})
+            for key in ("a", "b"):
+                if key in obs:
+                    add(key + ".xmapix", {"op": "c07.xmapix", "ntaxa": self._eff(case, key)["ntaxa"],
+                                          "nparent": case["nparent"], "unique": bool(case.get("unique", True))})
         if case["family"] in ("uc", "embv") and enc == "mate_integer":
             nm = case["nmating"] if isinstance(case["nmating"], list) else [case["nmating"]] * case["ncross"]
             add("uc_bounds", {"op": "c07.uc_bounds" if case["family"] == "uc" else "c07.embv_bounds",
@@ -1435,11 +1769,13 @@ class C07(Prop):
         if case["family"] == "fam" and _base_enc(enc) != "subset":
             add("family_bounds", {"op": "c07.family_bounds", "nparent": case["nparent"], "ntaxa": case["ntaxa"]})
         if case["algo"] == "stub" and case.get("nobj", 1) > 1:
-            o = obs["a"]
-            dec = [[int(Fraction(v) * case.get("real_den", 4)) if _base_enc(enc) == "real" else int(v) for v in d]
-                   for d in case["soln_decn"]]
-            add("mo_choice", {"op": "c07.mo_choice", "wt": canon.enc(Fraction(case["ndset_wt"])), "tvals": o["tvals"],
-                              "decns": dec})
+            for key in ("a", "b"):
+                if key not in obs:
+                    continue
+                dec = [[int(Fraction(v) * case.get("real_den", 4)) if _base_enc(enc) == "real" else int(v) for v in d]
+                       for d in self._eff(case, key)["soln_decn"]]
+                add(key + ".mo_choice", {"op": "c07.mo_choice", "wt": canon.enc(Fraction(case["ndset_wt"])),
+                                         "tvals": obs[key]["tvals"], "decns": dec})
             if case["ndset_trans"] == "default":
                 kw = case.get("ndset_kwargs") or {"obj_wt": [1] * case["nobj"], "vec_wt": [1] * case["nobj"]}
                 add("ndset_dist", {"op": "c07.ndset_dist", "mat": case["soln_obj"], "obj_wt": kw["obj_wt"],
@@ -1472,8 +1808,34 @@ class C07(Prop):
             cs.append(acc)
         return any(abs(o + j * d - c) <= eps for j in range(k) for c in cs)
 
+    @staticmethod
+    def _d20_like(enc, ncross, nparent, decn, xconfig):
+        """could this table have come out of the as-is integer sampler (finding D20)?  Integer encoding, the counts do
+        not tile the slots, some count >= 2, and (individual-based) every use count lies in [q d_i, (q+1) d_i] - the
+        exact set of attainable count vectors (theorem C07.integer_use_counts_iff)"""
+        if _base_enc(enc) != "integer" or decn is None:
+            return False
+        try:
+            d = [int(Fraction(v)) for v in decn]
+        except (ValueError, TypeError):
+            return False
+        tot = sum(d)
+        nslot = ncross * (1 if enc.startswith("mate_") else nparent)
+        if tot <= 0 or nslot % tot == 0 or max(d) < 2:
+            return False
+        if enc.startswith("mate_"):
+            return True
+        q = nslot // tot
+        flat = [v for r in xconfig for v in r]
+        return all(q * d[i] <= flat.count(i) <= (q + 1) * d[i] for i in range(len(d)))
+
     def _judge_sample_spec(self, enc, ncross, nparent, log, xconfig, answers, decn=None):
-        """-> (corr, spec, detail, share_only) for one configuration"""
+        """-> (corr, spec, detail, share_only) for one configuration; share_only = the share clause alone fails AND
+        the table is one the as-is integer sampler can produce (known finding D20)"""
+        out = self._judge_sample_spec0(enc, ncross, nparent, log, xconfig, answers, decn)
+        return out[0], out[1], out[2], bool(out[3] and self._d20_like(enc, ncross, nparent, decn, xconfig))
+
+    def _judge_sample_spec0(self, enc, ncross, nparent, log, xconfig, answers, decn=None):
         orc = _parse_log(enc, log, ncross, nparent)
         i = 0
         if (orc is not None and _base_enc(enc) == "real" and decn is not None and "ok" in answers[0]
@@ -1524,6 +1886,7 @@ class C07(Prop):
             corr, spec, detail, share_only = self._judge_sample_spec(
                 case["enc"], case["ncross"], case["nparent"], obs["log"], obs["xconfig"], answers, case["decn"])
             spec = spec and obs["design_ok"]
+            share_only = share_only and obs["design_ok"]       # nothing but the share clause fails
             corr = corr and obs["decn_untouched"]      # not a clause of the statement: a broken correspondence only
             flat = [v for r in obs["xconfig"] for v in r]
             nontriv = (case["ncross"] >= 2 or case["nparent"] >= 2) and len(set(flat)) >= 2
@@ -1539,22 +1902,27 @@ class C07(Prop):
 
     def _judge_history(self, case, obs, answers):
         corr, spec, details, share_only = True, True, [], False
+        hard = False            # some clause other than a D20-like share deviation fails
         pos = 0
         for j, smp in enumerate(obs["samples"]):
             n = smp["_nreq"]
             c, s, d, so = self._judge_sample_spec(case["enc"], case["ncross"], case["nparent"], smp["log"], smp["xconfig"],
-                                                   answers[pos:pos + n], case["decns"][smp["cur"]])
+                                                   answers[pos:pos + n], smp["decn"])
             pos += n
             share_only = share_only or so
-            corr = corr and c and smp["returned_ok"]
+            hard = hard or (not s and not so)
+            # (the table is judged against the decision the configuration itself reported before sampling; that this
+            #  is the row of the solution array it was given is a matter of correspondence only)
+            corr = corr and c and smp["returned_ok"] and smp.get("decn_is_row", True)
             spec = spec and s
-            if not (c and s and smp["returned_ok"]):
-                details.append(f"sample {j} (decision {smp['cur']}={case['decns'][smp['cur']]}): {d} returned_ok={smp['returned_ok']}")
+            if not (c and s and smp["returned_ok"] and smp.get("decn_is_row", True)):
+                details.append(f"sample {j} (decision {smp['decn']}, row {smp['cur']} of the solution array: {smp.get('decn_is_row', True)}): {d} returned_ok={smp['returned_ok']}")
         spec = spec and obs["design_ok"]
+        hard = hard or not obs["design_ok"]
         corr = corr and obs["earlier_tables_intact"] and obs["decn_untouched"]
         flat = [v for smp in obs["samples"] for r in smp["xconfig"] for v in r]
         return {"corr": corr, "spec": spec, "nontrivial": len(obs["samples"]) >= 2 and len(set(flat)) >= 2,
-                "share_only": share_only,
+                "share_only": share_only and not hard,
                 "detail": f"history[{case['enc']} dtype={case.get('dtype')} layout={case.get('layout')}] steps={case['steps']} "
                           f"{len(obs['samples'])} samples; " + (" | ".join(details) if details else "all samples ok")
                           + f" untouched={obs['decn_untouched']} design={obs['design_ok']} earlier_tables_intact={obs['earlier_tables_intact']}"}
@@ -1567,29 +1935,38 @@ class C07(Prop):
             by.setdefault(t, []).append(a)
         corr, spec, details = True, True, []
         share_only = False
+        st = {"hard": False}        # some clause other than a D20-like share deviation fails
+
+        def need(x):
+            if not x:
+                st["hard"] = True
+            return bool(x)
         per = {}
-        lean_xmap = self._ok(by["xmapix"][0]) if mate else None
         for key in ("a", "b"):
             if key not in obs:
                 continue
             o = obs[key]
-            c, s, d, so = self._judge_sample_spec(enc, case["ncross"], case["nparent"], o["log"], o["xconfig"],
+            ce = self._eff(case, key)
+            lean_xmap = self._ok(by[key + ".xmapix"][0]) if mate else None
+            c, s, d, so = self._judge_sample_spec(enc, ce["ncross"], ce["nparent"], o["log"], o["xconfig"],
                                                    by[key + ".cfg"], o["decn"])
             share_only = share_only or so
-            # design parameters carried over
-            nm = case["nmating"] if isinstance(case["nmating"], list) else [case["nmating"]] * case["ncross"]
-            npg = case["nprogeny"] if isinstance(case["nprogeny"], list) else [case["nprogeny"]] * case["ncross"]
+            need(s or so)
+            # design parameters carried over (for the second call on a re-used protocol: the re-assigned ones)
+            nm = ce["nmating"] if isinstance(ce["nmating"], list) else [ce["nmating"]] * ce["ncross"]
+            npg = ce["nprogeny"] if isinstance(ce["nprogeny"], list) else [ce["nprogeny"]] * ce["ncross"]
             design = o["design_ok"] and o["nmating"] == nm and o["nprogeny"] == npg and o["has_soln"]
-            s = s and design
+            s = s and need(design)
             # the configuration is sampled from the generator the protocol was constructed with
             own = o["own_generator"] and o["stray_draws"] == 0
             c = c and own
             details.append(f"{key}: {d} design={design} draws_from_protocol_generator={own}")
             if "again" in o:
                 # a second configuration sampled from the same object: same clauses, solution object untouched
-                c2, s2, d2, so2 = self._judge_sample_spec(enc, case["ncross"], case["nparent"], o["again_log"], o["again"],
+                c2, s2, d2, so2 = self._judge_sample_spec(enc, ce["ncross"], ce["nparent"], o["again_log"], o["again"],
                                                           by[key + ".again"], o["decn"])
                 share_only = share_only or so2
+                need(s2 or so2)
                 c = c and c2 and o["soln_untouched"] and o["again_untouched"]
                 s = s and s2
                 if not (c2 and s2 and o["soln_untouched"] and o["again_untouched"]):
@@ -1609,19 +1986,23 @@ class C07(Prop):
                 same_vals = [so_vals[i] for i in m] == [so_vals[i] for i in o["decn"]]
                 distinct = len(set(so_vals)) == len(so_vals)
                 c = c and (m == o["decn"] if distinct else same_vals)
-                c = c and o["space"] == list(range(len(self._candidates(case))))
-                s = s and bool(topk) and bool(cover)
+                mw = by[key + ".sorting_with"][0]
+                c = c and mw.get("ok") == o["decn"]     # exact, ties included (numpy's tie order as a validated oracle)
+                c = c and o["space"] == list(range(len(self._candidates(ce))))
+                kexp = min(self._problem_expect(ce)[1], len(so_vals))
+                c = c and len(o["decn"]) == kexp       # as many members as the design in force asks for
+                s = s and need(bool(topk) and bool(cover))
                 details.append(f"{key}: sorting model={m} impl={o['decn']} topk={topk} "
                                f"decision_space_covers_all_candidates={cover}")
                 if key + ".topk_full" in by:
                     tf = self._ok(by[key + ".topk_full"][0])
-                    s = s and bool(tf)
+                    s = s and need(bool(tf))
                     details.append(f"{key}: best among ALL {len(o['full_obj'])} candidates={tf}")
                 elif not cover:
-                    miss = [t for t, v in zip(self._candidates(case), o["full_obj"]) if v is None]
+                    miss = [t for t, v in zip(self._candidates(ce), o["full_obj"]) if v is None]
                     details.append(f"{key}: candidates missing from the problem: {miss[:6]}")
                 else:
-                    s = False
+                    s = need(False)
                     details.append(f"{key}: chosen decision {o['decn']} is not a candidate of the population")
                 per[key] = {"vals": sorted(so_vals[i] for i in o["decn"]), "distinct": distinct}
             corr = corr and c
@@ -1645,12 +2026,15 @@ class C07(Prop):
                 chosen = set(a["decn"])
                 w = Fraction(case.get("obj_wt", 1))
                 ok = all(w * (-indep[i]) <= w * (-indep[j]) for i in chosen for j in range(case["ntaxa"]) if j not in chosen)
-                spec = spec and ok
+                spec = spec and need(ok)
                 details.append(f"independent criterion ok={ok}")
             # equivariance under permutation + relabelling
             rnd = case["family"] in ("random", "embv")      # the criterion itself is redrawn / re-simulated in every run
-            eq_vals = rnd or canon.close(per["a"]["vals"], per["b"]["vals"], rel=1e-9, abs_=1e-9)
-            spec = spec and eq_vals
+            sub = len(case["perm"]) != case["ntaxa"]        # second population = a sub-population: nothing to compare
+            rnd = rnd or sub
+            kk = min(len(per["a"]["vals"]), len(per["b"]["vals"]))     # (a re-assigned ncross: the best kk of both)
+            eq_vals = rnd or canon.close(per["a"]["vals"][:kk], per["b"]["vals"][:kk], rel=1e-9, abs_=1e-9)
+            spec = spec and need(eq_vals)
             details.append(f"chosen criterion values agree={eq_vals}")
             if per["a"]["distinct"] and not rnd:
                 if mate:
@@ -1661,26 +2045,30 @@ class C07(Prop):
                     ca = sorted(case["names"][i] for i in a["decn"])
                     inv = {case["names2"][i]: case["names"][case["perm"][i]] for i in range(case["ntaxa"])}
                     cb = sorted(inv[b["names"][i]] for i in b["decn"])
-                spec = spec and ca == cb
+                eqv = ca == cb if len(ca) == len(cb) else (set(ca) <= set(cb) or set(cb) <= set(ca))
+                spec = spec and need(eqv)
                 details.append(f"equivariance {ca} vs {cb}")
             nopt = len(a["single_obj"])
             nontriv = nopt >= 2 and len(set(a["decn"])) < nopt
         else:
-            o = obs["a"]
+          for key in ("a", "b"):
+            if key not in obs:
+                continue
+            o = obs[key]
             b = _base_enc(enc)
             nobj = case.get("nobj", 1)
             dec_impl = [Fraction(v) for v in canon.dec(o["decn"])] if b == "real" else o["decn"]
-            cand = [[Fraction(v) for v in d] for d in case["soln_decn"]]
+            cand = [[Fraction(v) for v in d] for d in self._eff(case, key)["soln_decn"]]
             if b == "subset":       # a subset decision is a set: the order of its members carries no meaning
                 dec_impl = sorted(dec_impl)
                 cand = [sorted(d) for d in cand]
             if nobj == 1:
                 ok = [Fraction(v) for v in dec_impl] == cand[0]
-                spec = spec and ok
-                details.append(f"decision is soln_decn[0]: {ok}")
+                spec = spec and need(ok)
+                details.append(f"{key}: decision is soln_decn[0]: {ok}")
                 nontriv = True
             else:
-                m = self._ok(by["mo_choice"][0])
+                m = self._ok(by[key + ".mo_choice"][0])
                 wt = Fraction(case["ndset_wt"])
                 hit = [i for i, d in enumerate(cand) if d == [Fraction(v) for v in dec_impl]]
                 if case["ndset_trans"] == "default":
@@ -1689,26 +2077,27 @@ class C07(Prop):
                 else:
                     mat = [[Fraction(v) for v in r] for r in case["soln_obj"]]
                     t = {"sum": lambda r: sum(r), "first": lambda r: r[0], "negmax": lambda r: -max(r)}[case["ndset_trans"]]
-                    score = [float(wt * t(r)) for r in mat]
+                    score = [wt * t(r) for r in mat]        # exact: integer / dyadic objective values, sums exact in binary64
                 if score is None or not hit:
                     okmax = False
                     ix_impl = hit[0] if hit else None
                 else:
                     mx = max(score)
-                    tol = 1e-9 * max(1.0, abs(mx))
+                    tol = 1e-9 * max(1.0, abs(mx)) if case["ndset_trans"] == "default" else 0
                     # duplicated decisions in the front: the configuration is right if ANY front member with
                     # this decision maximises the preference transformation
                     good = [i for i in hit if score[i] >= mx - tol]
                     okmax = bool(good)
                     ix_impl = good[0] if good else hit[0]
-                spec = spec and okmax
-                near_tie = score is not None and sum(1 for v in score if v >= max(score) - 1e-9 * max(1.0, abs(max(score)))) > 1
+                spec = spec and need(okmax)
+                near_tie = score is not None and sum(1 for v in score if v >= max(score) - (
+                    1e-9 * max(1.0, abs(max(score))) if case["ndset_trans"] == "default" else 0)) > 1
                 cm = m is not None and (m["ix"] in hit or (near_tie and okmax))
                 corr = corr and cm
-                details.append(f"mo choice model={m} impl_ix={ix_impl} score={score} argmax_ok={okmax}"
+                details.append(f"{key}: mo choice model={m} impl_ix={ix_impl} score={None if score is None else [float(v) for v in score]} argmax_ok={okmax}"
                                + (f" cv={case['soln_cv']}" if case.get("soln_cv") else ""))
                 nontriv = len(cand) >= 2
-        return {"corr": corr, "spec": spec, "nontrivial": nontriv, "share_only": share_only,
+        return {"corr": corr, "spec": spec, "nontrivial": nontriv, "share_only": share_only and not st["hard"],
                 "detail": f"select[{case['family']}/{enc}/{case['algo']}] " + " | ".join(details)}
 
     @staticmethod
@@ -1736,18 +2125,27 @@ class C07(Prop):
             if fam == "l2" and exc == "type" and "mkrwt" in text and "afreq" in text:
                 sig.update(site="L2NormGenomicSelection.problem", cond="from_gmat_called_without_mkrwt_afreq")
         if b == "integer" and isinstance(verdict, dict) and verdict.get("share_only"):
-            decs = [case["decn"]] if case.get("kind") == "cfg" else case.get("soln_decn", case.get("decns", []))
-            for d in decs:
-                tot = sum(int(v) for v in d)
-                if tot and nslot % tot != 0 and max(int(v) for v in d) >= 2:
-                    sig["site"] = "IntegerSelectionConfiguration.sample_xconfig"
-                    sig["cond"] = "remainder_drawn_from_repeated_options"
+            # (share_only: every failing clause is a share deviation of a table the as-is integer sampler can produce,
+            #  judged per table against the decision and the number of slots in force when it was sampled)
+            sig["site"] = "IntegerSelectionConfiguration.sample_xconfig"
+            sig["cond"] = "remainder_drawn_from_repeated_options"
         return sig
 
     def shrink(self, case):
         k = case.get("kind")
+        if k == "history":
+            st = case["steps"]
+            for i in range(len(st)):            # any step list is a valid history
+                c = dict(case)
+                c["steps"] = st[:i] + st[i + 1:]
+                yield c
+            if case.get("layout") or case.get("xmap_order"):
+                c = dict(case)
+                c.pop("layout", None), c.pop("xmap_order", None)
+                yield c
         if k == "cfg":
-            for key in ("ncross", "nparent"):
+            # mate-selection encodings: the decision indexes the cross map of (ntaxa, nparent): only ncross may shrink
+            for key in (("ncross",) if case["enc"].startswith("mate_") else ("ncross", "nparent")):
                 if case[key] > 1:
                     c = dict(case)
                     c[key] = case[key] - 1
@@ -2021,7 +2419,112 @@ class C07(Prop):
         def problem_float_bounds(self, *a, **kw):
             raise TypeError("ndarray 'decn_space' must have an integer dtype")
 
+        # ---- round 4: in-place revisions, generator type, self crosses, re-assigned design, near-tied fronts
+        def stale_decision_values(mod):
+            """the decision's values are snapshotted when the vector is assigned and reused as long as the SAME array
+            object is held: an in-place revision of the vector (or of the solution it is a view of) goes unnoticed
+            (class of C07-d1)"""
+            cls = getattr(mod, mod.__name__.split(".")[-1])
+            orig = cls.sample_xconfig
+
+            def sample_xconfig(self, return_xconfig=True):
+                c = getattr(self, "_c07_cache", None)
+                if c is None or c[0] is not self._xconfig_decn:
+                    c = (self._xconfig_decn, self._xconfig_decn.copy())
+                    self._c07_cache = c
+                real = self._xconfig_decn
+                try:
+                    self._xconfig_decn = c[1]
+                    return orig(self, return_xconfig)
+                finally:
+                    self._xconfig_decn = real
+            return _patch(cls, "sample_xconfig", sample_xconfig)
+
+        def axis_permuted_for_generator(a, axis=None, rng=None):
+            """'vectorised' path for a Generator: permuted(axis=0) shuffles every parent column ACROSS crosses
+            (class of C07-d2); RandomState keeps the loop"""
+            if isinstance(rng, numpy.random.Generator) and a.ndim == 2 and axis in (0, (0,)):
+                rng.permuted(a, axis=0, out=a)
+                return
+            return real_axis(a, axis, rng=rng)
+
+        def mate_outcrossed(mod):
+            """mate-selection configuration passed through outcross_shuffle after the cross-map lookup: self crosses
+            of the solution are broken up into crosses that were not chosen (class of C07-d3, all four encodings)"""
+            cls = getattr(mod, mod.__name__.split(".")[-1])
+            orig = cls.sample_xconfig
+
+            def sample_xconfig(self, return_xconfig=True):
+                out = orig(self, True)
+                if out.size <= 40:          # (keeps the self-test fast on the 300 / 1100-cross corpus cases)
+                    sampling.outcross_shuffle(out, rng=self.rng)
+                self.xconfig = out
+                if return_xconfig:
+                    return out
+            return _patch(cls, "sample_xconfig", sample_xconfig)
+
+        def design_frozen_at_first_select(mod):
+            """mating / progeny numbers captured by the first select() and reused afterwards although the attributes
+            of the protocol object have been re-assigned"""
+            cls = getattr(mod, mod.__name__.split(".")[-1])
+            orig = cls.select
+
+            def select(self, *a, **kw):
+                cfg = orig(self, *a, **kw)
+                fr = getattr(self, "_c07_frozen", None)
+                if fr is None:
+                    self._c07_frozen = (numpy.array(cfg.nmating), numpy.array(cfg.nprogeny))
+                elif len(fr[0]) == cfg.ncross:
+                    cfg.nmating, cfg.nprogeny = fr[0].copy(), fr[1].copy()
+                else:
+                    cfg.nmating = numpy.repeat(fr[0][:1], cfg.ncross)
+                    cfg.nprogeny = numpy.repeat(fr[1][:1], cfg.ncross)
+                return cfg
+            return _patch(cls, "select", select)
+
+        def tolerant_front(mod):
+            """preference scores within 1e-5 (relative) count as equal: the first of them is taken"""
+            cls = getattr(mod, mod.__name__.split(".")[-1])
+            orig = cls.select
+
+            def select(self, pgmat, gmat, ptdf, bvmat, gpmod, t_cur, t_max, miscout=None, **kwargs):
+                if self.nobj <= 1:
+                    return orig(self, pgmat, gmat, ptdf, bvmat, gpmod, t_cur, t_max, miscout=miscout, **kwargs)
+                real_trans = self.ndset_trans
+
+                def trans(mat, **kw):
+                    v = numpy.asarray(real_trans(mat, **kw), dtype=float)
+                    return numpy.round(v / (1e-5 * max(1.0, float(numpy.abs(v).max()))))
+                try:
+                    self._ndset_trans = trans
+                    return orig(self, pgmat, gmat, ptdf, bvmat, gpmod, t_cur, t_max, miscout=miscout, **kwargs)
+                finally:
+                    self._ndset_trans = real_trans
+            return _patch(cls, "select", select)
+
+        def first_point_without_miscout(mod):
+            """`select(..., miscout=None)` takes a short cut: the first point of the solution set instead of the preferred one"""
+            cls = getattr(mod, mod.__name__.split(".")[-1])
+            orig = cls.select
+
+            def select(self, pgmat, gmat, ptdf, bvmat, gpmod, t_cur, t_max, miscout=None, **kwargs):
+                if self.nobj <= 1 or miscout is not None:
+                    return orig(self, pgmat, gmat, ptdf, bvmat, gpmod, t_cur, t_max, miscout=miscout, **kwargs)
+                real_trans = self.ndset_trans
+                try:
+                    self._ndset_trans = lambda mat, **kw: numpy.zeros(len(mat))
+                    return orig(self, pgmat, gmat, ptdf, bvmat, gpmod, t_cur, t_max, miscout=miscout, **kwargs)
+                finally:
+                    self._ndset_trans = real_trans
+            return _patch(cls, "select", select)
+
         muts = [
+            ("mo_choice_skipped_when_miscout_is_None", lambda: _many(*[first_point_without_miscout(M["protmod"][e]) for e in M["protmod"]])),
+            ("decision_values_stale_after_in_place_revision", lambda: _many(*[stale_decision_values(M["cfgmod"][e]) for e in M["cfgmod"]])),
+            ("axis_shuffle_permutes_columns_for_a_Generator", lambda: _many(*[_patch(m, "axis_shuffle", axis_permuted_for_generator) for m in ind_mods])),
+            ("mate_configuration_outcross_shuffled", lambda: _many(*[mate_outcrossed(M["cfgmod"][e]) for e in ENC_MATE])),
+            ("design_numbers_frozen_at_first_select", lambda: _many(*[design_frozen_at_first_select(M["protmod"][e]) for e in M["protmod"]])),
+            ("mo_choice_with_tolerant_comparison", lambda: _many(*[tolerant_front(M["protmod"][e]) for e in M["protmod"]])),
             ("mo_choice_over_feasible_points_misindexed", lambda: _many(*[feasible_misindexed(M["protmod"][e]) for e in M["protmod"]])),
             ("ohv_decision_space_is_a_prefix_of_the_cross_map", lambda: _patch(OhvSubset, "problem", ohv_problem_prefix)),
             ("ohv_cross_map_ignores_unique_parents_false", lambda: _many(*[_patch(k, "_calc_xmap", staticmethod(ohv_xmap_unique_only)) for k in ohv_probcls])),
